@@ -28,15 +28,22 @@ CASE_TIMEOUT_S = 60
 LEVEL_TEXT = (
     "Proved in Lean for all inputs: (1) cum_eq_pandas — the lowered Series cumsum/cumprod/cummax/cummin "
     "(CumulativeBlockwise + TakeLast + CumulativeFinalize with the cum*_aggregate None/NaN rules, as repaired by the "
-    "three fix commits) equals pandas on the concatenation for EVERY partitioning incl. empty and all-NA partitions, "
+    "fix commits) equals pandas on the concatenation for EVERY partitioning incl. empty and all-NA partitions, "
     "both skipna settings, any associative-commutative operation; partition lengths preserved. "
     "(2) overlap_local_eq_global + mapOverlap_isSome_iff — MapOverlap with integer before/after "
     "(CreateOverlappingPartitions/_combined_parts/overlap_chunk) applied to any (b,a)-local row function "
     "(shift, diff, ffill/bfill(limit), rolling with min_periods/center) equals that function of the whole frame on every "
-    "partitioning, and raises exactly when a partition is smaller than the overlap it must lend. "
+    "partitioning, and raises exactly when a partition is smaller than the overlap it must lend; overlap_reverse_symmetric "
+    "(the construction commutes with reversing the frame, before/after swapped). "
+    "(3) ffill_unlimited / bfill_unlimited — FillnaCheck + FFill(before=1) / BFill(after=1) equal pandas ffill()/bfill() "
+    "whenever the code does not raise. "
+    "(4) time_window_local_eq_global — the TIMEDELTA branch (fast path, slow path over several partitions, _tail_timedelta, "
+    "_combined_parts, overlap_chunk with before=prev_part_length) computes every (t-W, t]-local row function "
+    "(rolling('Ws'), map_overlap(before=Timedelta)) as on the whole frame for every partitioning with truthful divisions "
+    "(empty / narrower-than-window partitions included) and never raises. "
     "Partial: the DataFrame (2-d) cumulative path is modelled per column and REFUTED (cum_df_refuted; known findings), "
-    "cum_df_partial holds on its complement; unlimited ffill/bfill (FillnaCheck) and time-based windows are modelled/"
-    "validated by correspondence only; pandas' own kernels are specification functions validated against pandas.")
+    "cum_df_partial holds on its complement; centered time windows / a timedelta `after` are validated at API level only; "
+    "pandas' own kernels are specification functions validated against pandas.")
 LEVEL_NOTE = ("Trusted: Lean kernel; the harness' encoding of frames as integer cells (NaN = none); pandas as reference for the "
               "per-partition kernels (cumsum…, shift, ffill, rolling) — every Lean specification function is diffed against "
               "pandas on each run; pyarrow import stub.")
@@ -44,7 +51,8 @@ TECHNIQUE = "Lean 4 proof (block-scan / context-window induction over an arbitra
 ASSUMPTIONS = [
     "pandas Series.cumsum/cumprod/cummax/cummin(skipna) on one partition = cumSkip/cumNo (validated: cumspec vs pandas)",
     "pandas shift/diff/ffill(limit)/bfill(limit)/rolling(w,min_periods,center).sum/count/max on one block = winFn of the g-instances (validated: winspec vs pandas)",
-    "values are integers embedded in float64/int64; float round-off is outside the theorems",
+    "pandas rolling('Ws', min_periods).sum/count = twinFn of gTRollSum/gTRollCount (validated: tspec vs pandas); divisions of the collection are truthful (dask's invariant for known divisions)",
+    "values are integers embedded in float64/int64, times integer seconds; float round-off is outside the theorems",
 ]
 TRUSTED = ["dd.from_map over explicit pandas pieces with known divisions builds the partitioning handed to the real code"]
 
@@ -488,7 +496,15 @@ def case_api(ctx, inp):
         ctx.fail(f"{kind} raised ValueError", observed=str(e)[:300])
         return
     except Exception as e:
-        ctx.fail(f"{kind} raised {type(e).__name__}", observed=f"{type(e).__name__}: {e}"[:300])
+        sig = None
+        if kind == "cum" and isinstance(pobj, pd.DataFrame):
+            # the projection `op(...)[["b"]]` is pushed into the cumulative op: the frame it runs on has these columns only
+            proj = inp.get("proj")
+            eff = proj if isinstance(proj, list) else list(pobj.columns)
+            cols = {k: [None if v != v else 1 for v in pobj[k].tolist()] for k in eff}
+            cls = _cumdf_class(cols, lens, p["how"][3:], True)
+            sig = f"cumdf:{cls}:{type(e).__name__}" if cls else None
+        ctx.fail(f"{kind} raised {type(e).__name__}", sig=sig, observed=f"{type(e).__name__}: {e}"[:300])
         return
     try:
         if isinstance(expected, pd.DataFrame):
